@@ -30,6 +30,30 @@ CHECKS = {
   text="Seeded search over call histories (plus one systematic sweep: every vendored example input through its own rule and format_code twice in a row, plain and with an ignore comment) in a long-lived process, judged operation by operation against a history-free reference (fresh fork of the same zygote, same knobs, same observing wrappers) and by cache-faithfulness invariants checked at every cache hit and at every rule exit. Exploration: histories are unbounded; what is sampled is which inputs, rules and distances meet.",
   note="Reference = same call in a fresh fork with identical knobs/wrappers; cache sizes are tuning knobs; aborted operations (injected BaseException at a seam) are not judged, only later ones. Input space limited to the vendored corpus (1031 example inputs of the repository), ignore-comment variants, joined snippets and a small module generator. Stale groupings of rule-private nodes are counted as observations, not violations.",
   ref="DESIGN.md 4 (C05), 2.2 E2"),
+ "C06": dict(
+  engine="e3_pool",
+  technique="deterministic simulation of the worker pool: the real CLI over a generated tree with multiprocessing.Pool replaced by real forked workers parked at every file-system operation; a seeded scheduler decides chunk->worker assignment and the order of all reads / truncations / fragmented flushes / closes; every schedule is compared with the sequential run; explicit choice lists as replay files",
+  text="Clause (b) (parallel == sequential for every worker count, file order and completion order) is decided by seeded search over schedules of the real CLI under SimPool against the sequential reference run (final bytes, per-pass change reports, return value, raised / not raised) plus always-on pass-protocol invariants. Clause (a) (hash seed / memory layout) is decided by E4 layout-sim once registered. Exploration: the schedule space is sampled, with a soundness argument (DESIGN 2.3) for serialising at file-system operations only.",
+  note="Workers share nothing but the file system; SimPool follows CPython 3.12 pool.py; a reader of a file larger than one read chunk being cut short by a concurrent truncate is not modelled; runs whose sequential reference raises are compared on raised / not raised only.",
+  ref="DESIGN.md 4 (C06), 2.2 E3/E4, 2.3"),
+ "C03": dict(
+  engine="e3_pool",
+  technique="deterministic simulation with fault injection: unparsable replacements injected into the real rewrite scheduler (E1), a misbehaving stage injected into real pool workers so that only the write guard stands between broken text and the disk (E3, file-system seam records old/new bytes of every write), validity side invariant over seeded call histories (E2)",
+  text="Decides the effect / recovery clauses of the statement: pass-level rollback under injected faults, the write guard (a valid file is never replaced by an invalid one) and the no-rewrite rule (a file whose formatted text equals its content is never opened for writing), observed at the file-system seam of the simulated pool. The universal clause over all input texts rides along as a sampled side invariant only.",
+  note="The injected stage fault stands for 'a rule misbehaves'; crash-atomicity of the tool's own write (ENOSPC / kill) is not part of the statement and not demanded.",
+  ref="DESIGN.md 4 (C03)"),
+ "C09": dict(
+  engine="e3_pool",
+  technique="bounded-liveness check under deterministic simulation: the real CLI pass loop over real forked workers under seeded schedules, re-run on its own output until six applications (quiescence within the pass budget, no text comes back, per-folder bookkeeping), plus interleaved six-fold re-formatting chains inside one long-lived process compared with fresh-process references (E2)",
+  text="Read as quiescence within N steps once inputs stop changing: after five applications a sixth must be a no-op and no earlier text may come back, through both implementations of the loop (format_code in a long-lived process; the CLI's MAX_MODULE_PASSES loop over pool workers with tasks migrating between warm workers). Exploration: inputs are sampled (the whole vendored corpus is swept in the chain batch), the protocol / warm-state dimension is what simulation adds.",
+  note="CLI clause only on trees without import edges between formatted files (there a file's pass sequence is exactly x, f(x), ...). Input diversity bounded by corpus + generators.",
+  ref="DESIGN.md 4 (C09)"),
+ "C20": dict(
+  engine="e5_optout",
+  technique="deterministic simulation + fault injection across the three places an opt-out must win: the rewrite scheduler under seeded conflicting / invalid transactions (E1), the file entry point under the simulated worker pool with file-system event monitor (E3: zero write events for skip_file files), the library / stdin entry points and the direct editing back-end under seeded edits (E5, stdin/stdout recording streams)",
+  text="skip_file: byte-identical through format_code (drawn options), echoed by the stdin mode, and never opened for writing by any worker, pass or schedule of the simulated CLI. ignore: a transaction touching an ignored line is dropped whole and every ignored physical line is verbatim after any scheduler pass (incl. rollback, re-indentation, pass insertion); through the direct back-end and end to end the clause is sampled and currently shows two known findings (removal back-end and renaming back-end have no ignore test), attributed by call site so that any other violation is still reported.",
+  note="stdin mode: the newline print() appends is framing. End-to-end lines are compared modulo trailing white space (trimming is whole-file layout normalisation). Known findings K2/K3 in KNOWN_FINDINGS.txt.",
+  ref="DESIGN.md 4 (C20)"),
 }
 
 def main():
@@ -65,6 +89,7 @@ def main():
             {"name": "e2_history", "path": "sim/e2_history.py", "serves_properties": ["C05", "C09", "C03"], "kind_free_text": "long-lived interpreter vs fresh-fork reference; seeded call histories, cache-size knobs, aborts, abandoned iterators"},
             {"name": "e3_pool", "path": "sim/e3_pool.py", "serves_properties": ["C06", "C03", "C08", "C09", "C18", "C20"], "kind_free_text": "CLI over a scratch tree with multiprocessing.Pool replaced by real forked workers parked at every file-system operation and released by a seeded scheduler"},
             {"name": "e4_layout", "path": "sim/e4_layout.py", "serves_properties": ["C06"], "kind_free_text": "same call in differently laid-out interpreters (hash seed x heap shift x keyed ast node hash)"},
+            {"name": "e5_optout", "path": "sim/e5_optout.py", "serves_properties": ["C20"], "kind_free_text": "opt-out comments at the library / stdin entry points and through the direct editing back-end; recording stdin/stdout streams"},
         ],
         "checks": checks,
         "not_applicable": [{"property_id": k, "reason": v} for k, v in sorted(na.items())],
